@@ -52,9 +52,9 @@ var (
 	False = Value{K: Bool, B: false}
 )
 
-func B(b bool) Value      { return Value{K: Bool, B: b} }
-func N(n float64) Value   { return Value{K: Num, N: n} }
-func S(s string) Value    { return Value{K: Str, S: s} }
+func B(b bool) Value    { return Value{K: Bool, B: b} }
+func N(n float64) Value { return Value{K: Num, N: n} }
+func S(s string) Value  { return Value{K: Str, S: s} }
 func A(items ...Value) Value {
 	if items == nil {
 		items = []Value{}
